@@ -11,8 +11,8 @@ GEN_MODULES = ['Quota']
 REQUIRED = ['getNBest_tie', 'getNBest_fits', 'getNBest_everyone', 'getNBest_length', 'aboveSorted_desc',
             'mem_aboveSorted', 'strictly_above_elected', 'level_all_elected', 'not_above_not_elected_in_tie',
             'below_never_elected', 'getNBest_strictMono_map', 'plurality_eq', 'quotaSelector_ok']
-NAME_MODES = ['str', 'int0', 'empty0']
-REQUIRED_COUNTERS = ['sorted_votes', 'boundary_tie', 'level_fits', 'negative_value', 'all_elected', 'fraction', 'decimal', 'quota_selector']
+NAME_MODES = ['str', 'int0', 'empty0', 'person']
+REQUIRED_COUNTERS = ['hash_alike_sequence', 'sorted_votes', 'boundary_tie', 'level_fits', 'negative_value', 'all_elected', 'fraction', 'decimal', 'quota_selector']
 RULE = ('1-8 candidates, values from tie-forcing small sets (incl. negatives/zero), Fractions, Decimals and integers up to '
         '10^30; n from 1 to len+2; ops get_n_best, plurality, quota_selector(select/error). Non-trivial = at least two '
         'candidates and a result that is not an error; distinct by canonical request.')
@@ -80,6 +80,24 @@ def generate(rng, tier):
         t = rng.randint(-1, 3)
         vals = [t + rng.choice([0, 0, 0, 1, 2, -1]) for _ in range(m)]
         yield _mk('get_n_best', vals, rng.randint(1, m), ['directed'])
+    # directed: consecutive calls whose value tuples HASH alike but differ (hash(-1) == hash(-2); hash(x) == hash(x + 2**61 - 1)
+    # for int / Fraction / Decimal): a result remembered under a hashed key would be handed back for the wrong election
+    P = 2 ** 61 - 1
+    for k in range(12 if tier == 'quick' else 120):
+        m = rng.randint(2, 4)
+        base = [rng.choice([-1, -2]) for _ in range(m)]
+        if len(set(base)) == 1:
+            base[0] = -3 - base[0]
+        swapped = [-3 - v for v in base]
+        n = rng.randint(1, m)
+        op = rng.choice(['get_n_best', 'plurality'])
+        for vals in (base, swapped):
+            yield _mk(op, list(vals), n, ['directed', 'hash_alike_sequence'])
+        b2 = [rng.randint(0, 3) for _ in range(m)]
+        s2 = [v + (P if rng.random() < 0.5 else 0) for v in b2]
+        if s2 != b2:
+            for vals in (b2, s2):
+                yield _mk(op, list(vals), n, ['directed', 'hash_alike_sequence'])
     if tier == 'thorough':
         for m in range(1, 6):
             for vals in itertools.product([0, 1, 2], repeat=m):
